@@ -21,6 +21,27 @@ theorem C11_cases :
         (isOneVertex a b c && isOneEdge a b c))) = true := by
   decide
 
+/-- **the slice classification of `slice_faces_plane` is right for all 27 patterns** (sign +1 = negative
+    side there): a triangle is cut ⇔ it has corners strictly on both sides; it is kept whole ⇔ no corner is
+    on the negative side; a cut triangle leaves a quad ⇔ two corners are on the positive side and a triangle
+    otherwise; kept, cut and dropped are exclusive; a triangle is kept by one of the two opposite slices
+    (signs negated) unless it is cut by both or lies in the plane -/
+theorem C11_slice_cases :
+    allTriples.all (fun t =>
+      let a := t.1; let b := t.2.1; let c := t.2.2
+      let neg := [a, b, c].count 1; let pos := [a, b, c].count (-1)
+      (onEdge a b c == (decide (0 < neg) && decide (0 < pos))) &&
+      (inside a b c == (neg == 0)) &&
+      (cutQuad a b c == (onEdge a b c && pos == 2)) &&
+      (cutTri a b c == (onEdge a b c && pos == 1)) &&
+      !(inside a b c && onEdge a b c) &&
+      (onEdge a b c == onEdge (-a) (-b) (-c)) &&
+      -- a face not cut and not in the plane goes to exactly one side
+      (onEdge a b c || zeros a b c == 3 || (inside a b c != inside (-a) (-b) (-c))) &&
+      -- the pieces of a cut face: quad on one side <-> triangle on the other, unless a corner is on the plane
+      (!(onEdge a b c) || zeros a b c == 1 || (cutQuad a b c == cutTri (-a) (-b) (-c)))) = true := by
+  decide
+
 section field
 variable {K : Type} [Field K] [LinearOrder K] [IsStrictOrderedRing K]
 
